@@ -75,6 +75,11 @@ Definition run_text (t : Z) (a : list sexp) : sexp :=
   | 106, [p; c; e; ap; aon] =>
       enc_otb (cond_chunk (dec_content p) (dec_content c) (dec_content e) (dec_content ap) (dec_bool aon))
   | 107, [l] => enc_str (str_comment (dec_strs l))
+  | 108, [c; more] =>
+      let ls := appended (dec_content c) in
+      let ext := ls ++ appended (CStr (dec_str more)) in
+      SL [enc_strs ls; enc_str (str_comment ls); enc_strs ext; enc_str (str_comment ext);
+          enc_str (str_tb (mk1 (CList [CComment ls]))); enc_strs (lns (mk1 (CComment ls)))]
   | 110, [x] => enc_strs (splitlines (dec_str x))
   | 111, [lo; n] => SL (filter_range is_space (Z.to_N (dec_Z lo)) (dec_nat n))
   | 112, [lo; n] => SL (filter_range is_linebreak (Z.to_N (dec_Z lo)) (dec_nat n))
